@@ -794,7 +794,7 @@ func ruleSQL(c *Ctx) {
 			c.R.Anchor("ext/sql." + name)
 			return
 		}
-		got := c.sxN(lit, lit.Body.List)
+		got := sqlHelperRoles(c, c.sxN(lit, lit.Body.List))
 		c.R.Check(got == want, "ext/sql."+name+"$init", "SQL-4 connective in position", lit.Pos(), "operands and connective in source order", "formatter changed: "+compact(got))
 	}
 	bin := func(conn string) string {
@@ -804,7 +804,7 @@ func ruleSQL(c *Ctx) {
 	fmtShape("LOGIC_OR_BOOL_BOOL", bin("OR"))
 	fmtShape("LOGIC_NOT_BOOL", "[(ReturnStmt Results:[(CallExpr Fun:s Args:[\"%s %s\" NOT (CallExpr Fun:ds Args:[(IndexExpr $p0 Index:0)])])])]")
 	if bi, ok := c.VarInit("ext/sql", "binary").(*ast.FuncLit); ok {
-		c.R.Check(strings.Contains(c.sxN(bi, bi.Body), "Args:[\"%s %s %s\" (CallExpr Fun:ds Args:[(IndexExpr $0 Index:0)]) $p0 (CallExpr Fun:ds Args:[(IndexExpr $0 Index:1)])]"), "ext/sql.binary", "SQL-4 comparison operator infix", bi.Pos(), "lhs op rhs", "binary formatter changed")
+		c.R.Check(strings.Contains(sqlHelperRoles(c, c.sxN(bi, bi.Body)), "Args:[\"%s %s %s\" (CallExpr Fun:ds Args:[(IndexExpr $0 Index:0)]) $p0 (CallExpr Fun:ds Args:[(IndexExpr $0 Index:1)])]"), "ext/sql.binary", "SQL-4 comparison operator infix", bi.Pos(), "lhs op rhs", "binary formatter changed")
 	}
 	for _, n := range []string{"AND", "OR", "NOT"} {
 		if cst, ok := c.Obj("ext/sql", n).(*types.Const); ok {
@@ -1545,4 +1545,29 @@ func ruleDebug(c *Ctx) {
 		ok := strings.Contains(s, "Fun:append Args:[(SelectorExpr $r Sel:vs) (CompositeLit Type:Val Elts:[$p0 $p1])]")
 		c.R.Check(ok, "debug.Record.Rec", "DB-2 every recorded value is kept, in evaluation order", rc.Pos(), "appended to the record", "a recorded value is dropped or reordered")
 	}
+}
+
+// sqlHelperRoles renames, in a printed formatter body, the two tiny helpers of package ext/sql to the names the expected
+// shapes use, whatever they are called in the tree: the one that unwraps a string value (`return v.Str().V`) is "ds", the one
+// that formats into a string value (`return val.Str(fmt.Sprintf(format, a...))`) is "s".
+func sqlHelperRoles(c *Ctx, printed string) string {
+	pk := c.Mod["ext/sql"]
+	if pk == nil {
+		return printed
+	}
+	for _, f := range pk.Syntax {
+		for _, d := range f.Decls {
+			fd, ok := d.(*ast.FuncDecl)
+			if !ok || fd.Body == nil || fd.Recv != nil || len(fd.Body.List) != 1 {
+				continue
+			}
+			switch c.sxN(fd, fd.Body.List) {
+			case "[(ReturnStmt Results:[(SelectorExpr (CallExpr Fun:(SelectorExpr $p0 Sel:Str)) Sel:V)])]":
+				printed = strings.ReplaceAll(printed, "Fun:"+fd.Name.Name+" ", "Fun:ds ")
+			case "[(ReturnStmt Results:[(CallExpr Fun:(SelectorExpr val Sel:Str) Args:[(CallExpr Fun:(SelectorExpr fmt Sel:Sprintf) Args:[$p0 $p1])])])]":
+				printed = strings.ReplaceAll(printed, "Fun:"+fd.Name.Name+" ", "Fun:s ")
+			}
+		}
+	}
+	return printed
 }
